@@ -226,6 +226,12 @@ def r2_dispatch(ck, prog, run):
             fa = [e for e in events if e[0] == "from_angles"]
             ok = len(fa) == 1 and isinstance(res, ObjV)
             found = f"result {str(res)[:60]}"
+            if not fa and isinstance(res, ObjV) and name in ("negative", "positive") and not [t for t in ev.trace if t[0] == "fallback"]:
+                # built some other way (say, by changing the sign of the two stored fields in place, which is exact and stays inside the
+                # symmetric range of the fraction): neither the from_angles route nor a fallback -- not decided by this rule
+                ck.unk("R2", f.where, tag, "built by from_angles from the separate parts", "the result is a Phase assembled without from_angles and without the "
+                       "single-double fallback: the stored fields are written directly, which this rule cannot follow")
+                continue
             if ok:
                 a = fa[0][1]
                 found = str({k: str(v)[:60] for k, v in a.items()})
